@@ -23,6 +23,7 @@ input):
   an overrun is re-run alone in a pristine process and reported only if it
   reproduces.
 """
+import collections
 import math
 import os
 import sys
@@ -79,6 +80,7 @@ FLOORS = {'gen:synth': 0.25, 'gen:sample': 0.08, 'gen:history': 0.10, 'synth:mul
           'history:mixed-listings': 0.08}
 
 _STATE = {'tier': 'quick', 'pristine': None, 'refs': {}, 'fresh': {}, 'fuzz': None}
+_PER_OFFSET = collections.Counter()    # reporting only: classes counted per prefix (evidence: offsets[...])
 
 
 # --------------------------------------------------------------------------
@@ -338,8 +340,10 @@ class _Judge:
                     self.same(obs, fresh, offset, cls)
 
     def finish(self):
-        for lab, num in sorted(self.labels.items()):
-            self.out.labels.extend([lab] * num)
+        # labels of a case = the classes present in it; the per-prefix counts go to the evidence file
+        # through shard_extra
+        self.out.labels.extend(sorted(self.labels))
+        _PER_OFFSET.update(self.labels)
         if self.nt_keys:      # the first key is the key of the case (so that it can be shown as a sample)
             self.out.nontrivial = True
             self.out.key = self.nt_keys[0]
@@ -484,8 +488,8 @@ def _run_history(out, case, work):
             fail.case = None
     keys = []
     for judge in judges:
-        for lab, num in sorted(judge.labels.items()):
-            out.labels.extend([lab] * num)
+        out.labels.extend(lab for lab in sorted(judge.labels) if lab not in out.labels)
+        _PER_OFFSET.update(judge.labels)
         keys.extend(judge.nt_keys)
     out.extra_keys.extend(keys)
     if keys:
@@ -596,10 +600,12 @@ def fuzz_mode():
 
 
 def shard_extra(tier, seed, shard, nshards, tally, deadline):
-    if tier != 'thorough':
-        return None
-    from vlib import t4fuzz
-    return t4fuzz.stage(sys.modules[__name__], seed, shard, nshards, tally, deadline)
+    extra = {}
+    if tier == 'thorough':
+        from vlib import t4fuzz
+        extra.update(t4fuzz.stage(sys.modules[__name__], seed, shard, nshards, tally, deadline))
+    extra.update({f'offsets[{lab}]': num for lab, num in sorted(_PER_OFFSET.items())})
+    return extra
 
 
 MANIFEST = {
